@@ -5,7 +5,9 @@ import ast
 import typing as T
 
 from sa import formats, relang as rl, shapes
+from sa.boolfn import BF
 from sa.model import AnalysisError, const_str, unparse, walk_no_nested
+from sa.pathcond import PathCond
 
 TECHNIQUE = "regular-language inclusion (renderer image ⊆ recogniser language) per part over the full value domain; ordered-choice check; table agreement and wiring rules"
 EXPLANATION = (
@@ -248,6 +250,11 @@ def run(ctx) -> None:
     from checks.c14 import two_digit_year_rule
     two_digit_year_rule(ctx, "R4")
     reader_fold_rule(ctx, "R4")
+    part_occurrences_rule(ctx, "R4")
+    bracket_loop_rule(ctx, "R3")
+    guarded_date_args_rule(ctx, "R8", "v2version.parse_field_values_to_cinfo")
+    nonempty_result_rule(ctx, "R8")
+    parsed_quarter_rule(ctx, "R8", "v2version.parse_field_values_to_cinfo")
 
     # ---------------------------------------------------------------- R5
     defaults = _parse_defaults(ctx, pv)
@@ -485,6 +492,8 @@ def reader_fold_rule(ctx, rule: str) -> None:
             want_tag = tg_v or (p2t[py_v] if py_v else "final")
             want_py = py_v or (t2p[tg_v] if tg_v else "")
             cases.append((g, {"tag": want_tag, "pytag": want_py}))
+    # a field that the pattern uses twice arrives under a suffixed group name as well (year_y_1, major_1): accepted, ignored
+    cases.append(({"major": "7", "major_1": "7", "bid": "1001", "year_y_2": "2021"}, {"major": 7}))
     n_folded = 0
     bad: T.List[str] = []
     for groups, want in cases:
@@ -492,6 +501,9 @@ def reader_fold_rule(ctx, rule: str) -> None:
         if got is None:
             continue
         n_folded += 1
+        if "__raises__" in got:
+            bad.append(f"groups {groups}: {got['__raises__']}")
+            continue
         for k, v in want.items():
             if k in got and (got[k] != v or type(got[k]) is not type(v)):
                 bad.append(f"groups {groups} -> {k}={got[k]!r}, expected {v!r}")
@@ -519,10 +531,156 @@ def fold_reader(ctx, groups: T.Dict[str, T.Any]) -> T.Optional[T.Dict[str, T.Any
     if not body or not isinstance(body[-1], ast.Return) or not isinstance(body[-1].value, ast.Call):
         return None
     kws = shapes.kwargs_of(body[-1].value)
-    env: T.Dict[str, T.Any] = {pv.params[0]: dict(groups), "__stubs__": {"parse_field_values_to_cinfo": lambda f, node: types.SimpleNamespace(
+    from sa.model import EvalError
+    env: T.Dict[str, T.Any] = {pv.params[0]: dict(groups), "__strict__": True, "__stubs__": {"parse_field_values_to_cinfo": lambda f, node: types.SimpleNamespace(
         **{k: f"cal:{k}" for k in ("year_y", "year_g", "quarter", "month", "dom", "doy", "week_w", "week_u", "week_v")})}}
     try:
         prog._propagate(pv.module, body[:-1], env, pv.fq)
         return {k: prog.fold(pv.module, v, env) for k, v in kws.items() if k in NON_CAL_FIELDS}
+    except EvalError as ex:
+        return {"__raises__": str(ex)}
     except (CannotFold, KeyError, TypeError, ValueError, AttributeError, IndexError):
         return None
+
+
+def part_occurrences_rule(ctx, rule: str) -> None:
+    """_iter_part_patterns evaluated on three patterns (a part used twice, a field used by two parts, nested brackets):
+    every occurrence of every part name is yielded exactly once with the part's own regex, and no two groups share a name."""
+    import re as _re
+    from sa.model import CannotFold, EvalError
+    prog = ctx.prog
+    ipp = prog.function("v2patterns._iter_part_patterns")
+    pats = prog.const("v2patterns", "PART_PATTERNS")
+    wrong: T.List[str] = []
+    n = 0
+    try:
+        for pattern in ("vYYYY.BUILD-YYYY", "YYYY0M.BUILD[-TAG]YY", "MAJOR.MINOR[.PATCH[-TAGNUM]]"):
+            try:
+                _ret, ys = prog.run_body(ipp, {ipp.params[0]: pattern, "__strict__": True})
+            except EvalError as ex:
+                wrong.append(f"{pattern!r}: {ex}")
+                continue
+            n += 1
+            want_spans = set()
+            for name in pats:
+                i = pattern.find(name)
+                while i >= 0:
+                    want_spans.add((i, i + len(name), name))
+                    i = pattern.find(name, i + len(name))
+            got_spans = set()
+            names: T.List[str] = []
+            for y in ys:
+                (_k, (st, en, grp)) = y
+                m = _re.match(r"\(\?P<(\w+)>(.*)\)$", grp, _re.S)
+                part = pattern[st:en]
+                if not m or part not in pats or m.group(2) != pats[part]:
+                    wrong.append(f"{pattern!r}: occurrence {pattern[st:en]!r}@{st} gets {grp[:40]!r}")
+                    continue
+                names.append(m.group(1))
+                got_spans.add((st, en, part))
+            if got_spans != want_spans:
+                wrong.append(f"{pattern!r}: occurrences {sorted(want_spans - got_spans)} get no group, {sorted(got_spans - want_spans)} are not occurrences")
+            if len(names) != len(set(names)):
+                wrong.append(f"{pattern!r}: group names {sorted(x for x in names if names.count(x) > 1)} are used twice")
+    except (CannotFold, TypeError, AttributeError, KeyError, ValueError, IndexError) as ex:
+        ctx.observe(f"_iter_part_patterns not evaluated ({type(ex).__name__}: {str(ex)[:80]})")
+        return
+    ctx.check(rule, not wrong, f"_iter_part_patterns: every occurrence of every part gets its own uniquely named group ({n} patterns evaluated)",
+              "v2patterns._iter_part_patterns: an occurrence of a part gets no group / a group name is used twice", "; ".join(wrong[:2]), loc=ipp.loc(), witness={"cases": wrong[:3]})
+
+
+def bracket_loop_rule(ctx, rule: str) -> None:
+    """_replace_pattern_parts rewrites `[` / `]` until a round substitutes nothing: the guard that ends the loop is folded
+    over (opening, closing) substitution counts {0, 1, 2}^2 and must hold exactly for (0, 0)."""
+    from sa.model import CannotFold
+    prog = ctx.prog
+    rpp = prog.function("v2patterns._replace_pattern_parts")
+    loops = [n for n in walk_no_nested(rpp.node) if isinstance(n, ast.While)]
+    if len(loops) != 1:
+        ctx.observe("_replace_pattern_parts: bracket loop is not a single while loop; its termination is not decided")
+        return
+    lp = loops[0]
+    counts = [tg.elts[1].id for st, tg, v in shapes.iter_assigns(lp) if isinstance(tg, ast.Tuple) and len(tg.elts) == 2 and isinstance(tg.elts[1], ast.Name)
+              and isinstance(v, ast.Call) and unparse(v.func) == "re.subn"]
+    brk = [n for n in ast.walk(lp) if isinstance(n, ast.If) and any(isinstance(b, ast.Break) for b in n.body)]
+    if len(counts) != 2 or len(brk) != 1:
+        ctx.observe("_replace_pattern_parts: bracket loop shape not recognised (two re.subn counts, one `if ...: break`)")
+        return
+    wrong = []
+    try:
+        for a in (0, 1, 2):
+            for b in (0, 1, 2):
+                got = bool(prog.fold(rpp.module, brk[0].test, {counts[0]: a, counts[1]: b}))
+                if got != (a == 0 and b == 0):
+                    wrong.append(f"{a} `[` and {b} `]` rewritten in a round -> loop {'ends' if got else 'goes on'}")
+    except CannotFold:
+        ctx.observe("_replace_pattern_parts: loop guard not foldable")
+        return
+    ctx.check(rule, not wrong, "_replace_pattern_parts: the bracket loop ends exactly when a round rewrote nothing (9 count pairs folded)",
+              "v2patterns._replace_pattern_parts: the bracket rewriting loop ends too early (or never)", f"`{unparse(brk[0].test)}`: {'; '.join(wrong[:3])} - nested `[[` / `]]` keep raw brackets "
+              "and the pattern does not compile", loc=rpp.loc(brk[0]), witness={"pattern": "MAJOR[[.MINOR].PATCH[-TAG]]"})
+
+
+def guarded_date_args_rule(ctx, rule: str, fq: str) -> None:
+    """Calls that build a date from parsed fields (`dt.date(y, m, d)`, `date_from_doy(y, doy)`) run only when every
+    argument was parsed: the path condition of the call implies each argument (a pattern may have a day of year and no year)."""
+    prog = ctx.prog
+    fn = prog.function(fq)
+    cfg = ctx.cfgs.get(fq)
+    pc = PathCond(cfg, max_atoms=24)
+    n_calls = 0
+    for n in cfg.nodes:
+        if n.ast is None or n.id not in cfg.reachable() or n.kind not in ("stmt",):
+            continue
+        for c in ast.walk(n.ast):
+            if isinstance(c, ast.Call) and unparse(c.func) in ("dt.date", "datetime.date", "version.date_from_doy", "date_from_doy") and all(isinstance(a, ast.Name) for a in c.args) and c.args:
+                n_calls += 1
+                r = pc.reach(n.id)
+                missing = [a.id for a in c.args if not (a.id in r.atoms and r.implies(BF.var(a.id))) and not (f"{a.id} is None" in r.atoms and r.implies(~BF.var(f"{a.id} is None")))]
+                ctx.check(rule, not missing, f"{fq} L{c.lineno}: `{unparse(c)}` only when all of its arguments were parsed", f"{fq}: a date is built from a field that was not parsed",
+                          f"`{unparse(c)}` is reached when {r.drop_unused().to_dnf()}: {missing} can be None (TypeError) - e.g. a pattern with a day of year but no calendar year",
+                          loc=fn.loc(c), witness={"pattern": "JJJ.BUILD"})
+    ctx.floor(rule, f"date constructions from parsed fields in {fq}", n_calls, 2)
+
+
+def nonempty_result_rule(ctx, rule: str) -> None:
+    """v2version.incr announces a version only when the rendered text is not empty (a pattern of optional groups only) and
+    differs from the old one: the path condition of `return new_version` excludes both."""
+    prog = ctx.prog
+    inc = prog.function("v2version.incr")
+    cfg = ctx.cfgs.get(inc.fq)
+    pc = PathCond(cfg, max_atoms=24)
+    rets = [n for n in cfg.nodes if n.kind == "stmt" and isinstance(n.ast, ast.Return) and n.ast.value is not None and not (isinstance(n.ast.value, ast.Constant) and n.ast.value.value is None)
+            and n.id in cfg.reachable()]
+    ctx.floor(rule, "version-returning exits of v2version.incr", len(rets), 1)
+    for n in rets:
+        v = unparse(n.ast.value)
+        r = pc.reach(n.id)
+        empties = [a for a in r.atoms if a.replace('"', "'") in (f"{v} == ''", f"not {v}", v, f"len({v}) == 0")]
+        ok = False
+        for a in empties:
+            if a == v:
+                ok = ok or r.implies(BF.var(a))
+            else:
+                ok = ok or r.implies(~BF.var(a))
+        ctx.check(rule, ok, f"v2version.incr: `return {v}` only for a non-empty rendering", "v2version.incr: an empty version can be announced",
+                  f"`return {v}` is reached when {r.drop_unused().to_dnf()}: with a pattern of optional groups only (`[MAJOR][-TAG]`) the empty text is returned as the new version, "
+                  "written to the files and the next run cannot read it", loc=inc.loc(n.ast), witness={"pattern": "[MAJOR][-TAG]", "version": "-beta", "flags": "--tag final"})
+
+
+def parsed_quarter_rule(ctx, rule: str, fq: str) -> None:
+    """A quarter that was parsed from the version text is kept: `quarter = quarter_from_month(month)` is reached only when
+    no quarter was parsed (`quarter is None`)."""
+    prog = ctx.prog
+    fn = prog.function(fq)
+    cfg = ctx.cfgs.get(fq)
+    pc = PathCond(cfg, extra_atoms=["quarter is None"], only=lambda t: t in ("quarter is None", "quarter"), max_atoms=4)
+    sites = [n for n in cfg.nodes if n.kind == "stmt" and isinstance(n.ast, ast.Assign) and unparse(n.ast.targets[0]) == "quarter" and isinstance(n.ast.value, ast.Call)
+             and unparse(n.ast.value.func).endswith("quarter_from_month") and n.id in cfg.reachable()]
+    ctx.floor(rule, f"derived-quarter assignments in {fq}", len(sites), 1)
+    for n in sites:
+        r = pc.reach(n.id)
+        ok = ("quarter is None" in r.atoms and r.implies(BF.var("quarter is None"))) or ("quarter" in r.atoms and r.implies(~BF.var("quarter")))
+        ctx.check(rule, ok, f"{fq}: the quarter is derived from the month only when none was parsed", f"{fq}: a parsed quarter is overwritten by the quarter of the month",
+                  f"`{unparse(n.ast)}` is reached when {r.drop_unused().to_dnf() if r.atoms else 'always'}: the version's own quarter does not read back (and --pin-date does not keep it)",
+                  loc=fn.loc(n.ast), witness={"version": "2021.1.12.1001", "pattern": "YYYY.Q.MM.BUILD", "flag": "--pin-date"})
